@@ -16,6 +16,7 @@ import (
 	"path/filepath"
 	"strconv"
 	"strings"
+	"sync"
 
 	"github.com/chrislusf/seaweedfs/weed/operation"
 	"github.com/chrislusf/seaweedfs/weed/util"
@@ -40,7 +41,85 @@ type upState struct {
 
 var cur upState
 
-func reset() { tr.Op("reset", nil, []string{"ok"}) }
+// every upload since the last reset (a failed one leaves an empty entry): the targets of `cfetch`
+var ups []upState
+
+func reset() {
+	ups = nil
+	tr.Op("reset", nil, []string{"ok"})
+}
+
+// fnv64 (FNV-1a) of the fetched bytes: concurrent fetches report length:digest, the driver computes the same digest over the
+// bytes the model yields and over the slice of the ORIGINAL of the blob each fetch addressed
+func fnv64(b []byte) uint64 {
+	h := uint64(14695981039346656037)
+	for _, x := range b {
+		h ^= uint64(x)
+		h *= 1099511628211
+	}
+	return h
+}
+
+type rfetch struct {
+	idx  int
+	off  int64
+	size int
+}
+
+// cfetch: k goroutines, each running its own list of RANGED fetches (ReadUrlAsStream, isFullChunk=false) over the blobs uploaded
+// since the last reset, all at the same time. One arg token per goroutine: idx:off:size,idx:off:size,…; one out token per fetch
+// (goroutine-major): len:fnv64 | err | panic | noupload.
+func cfetch(plans [][]rfetch) {
+	var args []string
+	for _, pl := range plans {
+		var t []string
+		for _, f := range pl {
+			t = append(t, fmt.Sprintf("%d:%d:%d", f.idx, f.off, f.size))
+		}
+		args = append(args, strings.Join(t, ","))
+	}
+	targets := append([]upState{}, ups...)
+	tr.Op("cfetch", args, hx.Guard(func() []string {
+		res := make([][]string, len(plans))
+		var wg sync.WaitGroup
+		start := make(chan struct{})
+		for g := range plans {
+			wg.Add(1)
+			go func(g int) {
+				defer wg.Done()
+				<-start
+				for _, f := range plans[g] {
+					res[g] = append(res[g], func() (out string) {
+						defer func() {
+							if recover() != nil {
+								out = "panic"
+							}
+						}()
+						if f.idx >= len(targets) || targets[f.idx].url == "" {
+							return "noupload"
+						}
+						u := targets[f.idx]
+						var buf []byte
+						_, err := util.ReadUrlAsStream(u.url, u.key, u.gzip, false, f.off, f.size, func(d []byte) {
+							buf = append(buf, d...)
+						})
+						if err != nil {
+							return "err"
+						}
+						return fmt.Sprintf("%d:%d", len(buf), fnv64(buf))
+					}())
+				}
+			}(g)
+		}
+		close(start)
+		wg.Wait()
+		var out []string
+		for _, r := range res {
+			out = append(out, r...)
+		}
+		return out
+	}))
+}
 
 // up: args = name mime cipher inputCompressed viaReader data | oracles: detected extmime gz128 gzip(data) decompress(data)
 func up(name, mtype string, cipher, inputCompressed, viaReader bool, data []byte) {
@@ -79,9 +158,11 @@ func up(name, mtype string, cipher, inputCompressed, viaReader bool, data []byte
 		}
 		if err != nil || res == nil {
 			cur = upState{}
+			ups = append(ups, cur)
 			return []string{"err"}
 		}
 		cur = upState{url: url, key: res.CipherKey, gzip: res.Gzip > 0}
+		ups = append(ups, cur)
 		out := []string{"ok", hx.U(uint64(res.Size)), hx.B(res.Gzip > 0), hx.B(res.CipherKey != nil), hx.HexS(res.Name), hx.HexS(res.Mime)}
 		nd, rerr := node.ReadNeedle(vid, key, 0x0badcafe)
 		if rerr != nil {
@@ -263,6 +344,63 @@ func main() {
 		fetch(true, 0, len(big))
 		fetch(false, int64(r.Intn(1000)), 1+r.Intn(15000))
 	}
+	// ---- payloads that themselves start with the gzip magic (a real .gz archive; gzip-looking garbage; a truncated stream),
+	// uploaded with an explicit compressible mime type and cipher off (and on): compressed once more, fetched back as uploaded
+	{
+		inner := bytes.Repeat([]byte("inner content of the archive, "), 40+r.Intn(40))
+		archive, _ := util.GzipData(inner)
+		garbage := append([]byte{0x1f, 0x8b}, r.Bytes(60+r.Intn(200))...)
+		for _, d := range [][]byte{archive, garbage, archive[:len(archive)/2], {0x1f, 0x8b}} {
+			for _, nm := range [][2]string{{"dump.sql.gz", "text/plain"}, {"feed", "application/atom+xml"}, {"backup.log", "text/x-log"}, {"a.js", "application/javascript"}, {"x.gz", ""}, {"", "application/json"}} {
+				for _, cipher := range []bool{false, true} {
+					if cipher && nm[0] != "feed" {
+						continue
+					}
+					reset()
+					up(nm[0], nm[1], cipher, false, r.Bool(), d)
+					fetches(r, len(d))
+				}
+			}
+		}
+	}
+	// ---- concurrency: several goroutines fetch ranges of DIFFERENT compressed blobs (and one plain, one encrypted) at the same
+	// time; every result is judged against the blob it addressed
+	for round := 0; round < a.N(1); round++ {
+		reset()
+		words := []string{"needle", "volume", "filer", "master", "chunk", "offset", "cookie", "replica", "\n"}
+		var sizes []int
+		nblobs := 8
+		for i := 0; i < nblobs; i++ {
+			n := 60000 + i*1111 + r.Intn(500)
+			var b bytes.Buffer
+			for b.Len() < n {
+				b.WriteString(r.Pick(words))
+				b.WriteByte(byte('0' + i)) // the blobs differ everywhere
+			}
+			data := b.Bytes()[:n]
+			switch i {
+			case 6:
+				up("plain.bin", "application/octet-stream", false, false, false, data[:9000]) // stored as is
+				sizes = append(sizes, 9000)
+			case 7:
+				up("enc.txt", "text/plain", true, false, false, data[:9000]) // encrypted
+				sizes = append(sizes, 9000)
+			default:
+				up(fmt.Sprintf("doc%d.txt", i), "text/plain", false, false, false, data) // stored gzipped
+				sizes = append(sizes, n)
+			}
+			fetch(false, int64(r.Intn(1000)), 1+r.Intn(5000))
+		}
+		plans := make([][]rfetch, 16)
+		for g := range plans {
+			for it := 0; it < 60; it++ {
+				idx := r.Intn(nblobs)
+				size := sizes[idx]/3 + r.Intn(sizes[idx]/2)
+				plans[g] = append(plans[g], rfetch{idx, int64(r.Intn(sizes[idx] - size)), size})
+			}
+		}
+		cfetch(plans)
+	}
 	// ---- a caller that claims "already compressed" for bytes with the gzip magic and a malformed header
 	for _, d := range [][]byte{{0x1f, 0x8b}, {0x1f, 0x8b, 8}} {
 		for _, cipher := range []bool{false, true} {
@@ -314,6 +452,19 @@ func replay(ops [][]string) {
 				sz, _ := strconv.Atoi(op[2])
 				fetch(false, off, sz)
 			}
+		case "cfetch":
+			var plans [][]rfetch
+			for _, t := range op[1:] {
+				var pl []rfetch
+				for _, e := range strings.Split(t, ",") {
+					var f rfetch
+					if _, err := fmt.Sscanf(e, "%d:%d:%d", &f.idx, &f.off, &f.size); err == nil {
+						pl = append(pl, f)
+					}
+				}
+				plans = append(plans, pl)
+			}
+			cfetch(plans)
 		case "fuzz":
 			fuzz(false, hx.UnHex(op[1]))
 		case "fuzzmaybe":
